@@ -289,6 +289,7 @@ func FullDepth1() *Set {
 			s.Add(q, 1)
 		}
 		s.Add("-"+sel, 1)
+		s.Add("+"+sel, 1)
 		s.Add("("+sel+")", 1)
 	}
 	for _, sel := range []string{`a`, `a{m=""}`, `a offset 30s`, `a @ 45.000`} {
@@ -335,7 +336,7 @@ func KUnary(x string) []string {
 			"abs("+x+")", "clamp_min("+x+", 2)", "ceil("+x+")",
 			"sum by (l) ("+x+")", "max without (l) ("+x+")", "count("+x+")", "sum("+x+")",
 			"topk(1, "+x+")", "topk by (l) (1, "+x+")", "quantile(0.5, "+x+")",
-			"-("+x+")", "scalar("+x+")")
+			"-("+x+")", "+("+x+")", "scalar("+x+")")
 		if e, err := parser.ParseExpr(x); err == nil {
 			if _, ok := e.(*parser.VectorSelector); ok {
 				out = append(out, "rate("+matrixOf(x, "1m")+")", "sum_over_time("+matrixOf(x, "45s")+")", "last_over_time("+matrixOf(x, "1m")+")")
